@@ -9,13 +9,15 @@ use std::sync::{Arc, Mutex, RwLock};
 use varlink::{Connection, ErrorKind, MethodCall};
 
 #[derive(Clone)]
-struct W(Arc<Mutex<Vec<u8>>>);
+struct W(Arc<Mutex<Vec<u8>>>, Arc<Mutex<bool>>);
 impl Write for W {
     fn write(&mut self, b: &[u8]) -> std::io::Result<usize> {
         self.0.lock().unwrap().extend_from_slice(b);
+        *self.1.lock().unwrap() = true; // bytes handed over but not flushed yet
         Ok(b.len())
     }
     fn flush(&mut self) -> std::io::Result<()> {
+        *self.1.lock().unwrap() = false;
         Ok(())
     }
 }
@@ -30,7 +32,7 @@ impl Read for FailingReader {
 type Call = MethodCall<Value, Value, varlink::Error>;
 
 fn connection(input: Vec<u8>, fail: bool) -> (Arc<RwLock<Connection>>, W) {
-    let w = W(Arc::new(Mutex::new(Vec::new())));
+    let w = W(Arc::new(Mutex::new(Vec::new())), Arc::new(Mutex::new(false)));
     let mut c = Connection::default();
     let r: Box<dyn Read + Send + Sync> = if fail { Box::new(FailingReader) } else { Box::new(Cursor::new(input)) };
     c.reader = Some(BufReader::new(r));
@@ -156,6 +158,9 @@ fn send(vals: &[u8]) -> Result<Outcome, String> {
         } else {
             let m = &msgs[before];
             let flag = |n: &str| m.get(n).and_then(|v| v.as_bool()) == Some(true);
+            if *w.1.lock().unwrap() {
+                bad = Some("the request was written but not flushed".into());
+            }
             if flag("oneway") != oneway || flag("more") != more || flag("upgrade") != upgrade {
                 bad = Some(format!("request {} does not carry the call mode", m));
             }
@@ -245,7 +250,17 @@ fn error_kind(vals: &[u8]) -> Result<Outcome, String> {
         ("org.varlink.service.MethodNotImplemented", "method"),
         ("org.example.SomethingElse", "x"),
     ];
-    let (name, field) = names[(g(1) as usize).min(4)];
+    let (mut name, field) = names[(g(1) as usize).min(4)];
+    // an error name the solver picked that is none of the four (e.g. a near miss of one of them)
+    let custom: String = if g(1) >= 4 && g(6) > 0 {
+        String::from_utf8_lossy(&vals[7..(7 + g(6) as usize).min(vals.len())]).to_string()
+    } else {
+        String::new()
+    };
+    let custom_static: &'static str = Box::leak(custom.clone().into_boxed_str());
+    if !custom.is_empty() {
+        name = custom_static;
+    }
     let parameters = if g(3) == 0 {
         None
     } else if g(4) == 0 {
